@@ -163,9 +163,11 @@ Definition reach_n (u : universe) (n : nat) : list key := iter n (step u) (roots
 
 Definition reach (u : universe) : list key := reach_n u (S (List.length (u_decls u))).
 
-Definition reached (u : universe) (d : decl) : bool := mem key_eqb (decl_key d) (reach u).
+Definition in_keys (ks : list key) (d : decl) : bool := mem key_eqb (decl_key d) ks.
 
-Definition reached_decls (u : universe) : list decl := filter (reached u) (u_decls u).
+Definition reached (u : universe) (d : decl) : bool := in_keys (reach u) d.
+
+Definition reached_decls (u : universe) : list decl := filter (in_keys (reach u)) (u_decls u).
 
 (* ------------------------------------------------------------------ *)
 (* swagtool.ToOpenApiType / IsGenericObject on the strings the emitters see *)
@@ -807,15 +809,21 @@ Definition named_by_text (u : universe) (d : decl) : list key :=
   | DEnum _ _ => []
   end.
 
-Fixpoint reachable_b (fuel : nat) (u : universe) (k : key) : bool :=
-  mem key_eqb k (flat_map route_refs (all_routes_u u)) ||
-  match fuel with
-  | O => false
-  | S f => existsb (fun d => mem key_eqb k (named_by_text u d) && reachable_b f u (decl_key d)) (u_decls u)
-  end.
+(* Kleene iteration from the empty set over the declaration list: one round keeps the
+   declarations named by a route or by a declaration of the previous round *)
+Definition text_round (u : universe) (prev : list key) : list key :=
+  map decl_key
+      (filter (fun d => mem key_eqb (decl_key d) (flat_map route_refs (all_routes_u u)) ||
+                        existsb (fun d' => mem key_eqb (decl_key d') prev &&
+                                           mem key_eqb (decl_key d) (named_by_text u d')) (u_decls u))
+              (u_decls u)).
 
-Definition reachable_text (u : universe) (d : decl) : bool :=
-  reachable_b (List.length (u_decls u)) u (decl_key d).
+Definition reachable_set (u : universe) : list key :=
+  iter (S (List.length (u_decls u))) (text_round u) [].
+
+Definition reachable_in (set : list key) (d : decl) : bool := mem key_eqb (decl_key d) set.
+
+Definition reachable_text (u : universe) (d : decl) : bool := reachable_in (reachable_set u) d.
 
 Definition returns_plain_error (u : universe) : bool :=
   existsb (fun r => match r_err r with None => true | Some _ => false end) (all_routes_u u).
@@ -870,7 +878,8 @@ Definition decl_by_text (d : decl) (c : comp) : bool :=
   end.
 
 Definition prop_C07 (u : universe) (d : doc) : bool :=
-  let want := filter (reachable_text u) (u_decls u) in
+  let rs := reachable_set u in
+  let want := filter (reachable_in rs) (u_decls u) in
   (* one schema for each reachable declaration, matching the declaration *)
   forallb (fun dc => Nat.eqb (List.length (filter (fun nc => str_eqb (fst nc) (d_name dc)) (doc_comps d))) 1 &&
                      match lookup (doc_comps d) (d_name dc) with
@@ -889,7 +898,8 @@ Definition prop_C07 (u : universe) (d : doc) : bool :=
    several schemas, 2 two reachable declarations share a name, 3 a schema without declaration,
    4 the error model is missing *)
 Definition c07_failed (u : universe) (d : doc) : list nat :=
-  let want := filter (reachable_text u) (u_decls u) in
+  let rs := reachable_set u in
+  let want := filter (reachable_in rs) (u_decls u) in
   (if forallb (fun dc => Nat.eqb (List.length (filter (fun nc => str_eqb (fst nc) (d_name dc)) (doc_comps d))) 1 &&
                          match lookup (doc_comps d) (d_name dc) with
                          | Some c => decl_by_text dc c
@@ -908,7 +918,7 @@ Definition c07_wrong (u : universe) (d : doc) : list str :=
                                | Some c => decl_by_text dc c
                                | None => false
                                end))
-              (filter (reachable_text u) (u_decls u))).
+              (let rs := reachable_set u in filter (reachable_in rs) (u_decls u))).
 
 (* ------------------------------------------------------------------ *)
 (* comparison of the model's document with an observed one *)
